@@ -154,6 +154,9 @@ static Value genT1d(vg::Rng &r) {
   }
   Value o = Value::object();
   o.set("u", Value::from(u)).set("v", Value::from(v)).set("s", Value::from(s)).set("d", Value::from(d)).set("balance", balance);
+  // supplies and demands are long long: the same instance with every quantity multiplied by 2^qscale (totals beyond 2^31); the
+  // event is logged in units of 2^(qscale-4), so that the shares balanceDemand() adds to 1, 2, 4, 8 or 16 sinks stay whole
+  o.set("qscale", r.pick(std::vector<int>{0, 0, 0, 29, 33, 36}));
   return o;
 }
 
@@ -379,22 +382,38 @@ static void runTransport(int run, const Value &in) {
 }
 
 static void runT1d(int run, const Value &in) {
-  Transportation1d pb(in["u"].longs(), in["v"].longs(), in["s"].longs(), in["d"].longs());
+  const int qs = in.has("qscale") ? (int)in["qscale"].asInt() : 0;
+  std::vector<long long> s0 = in["s"].longs(), d0 = in["d"].longs();
+  for (auto &x : s0) x <<= qs;
+  for (auto &x : d0) x <<= qs;
+  Transportation1d pb(in["u"].longs(), in["v"].longs(), s0, d0);
   if (in["balance"].asBool()) pb.balanceDemand();
+  const long long U = qs > 0 ? (1LL << (qs - 4)) : 1;
+  bool units = true;
+  auto inUnits = [&](std::vector<long long> q) {
+    for (auto &x : q) {
+      units = units && x % U == 0;
+      x /= U;
+    }
+    return q;
+  };
   Value ev = vt::ev("T1d");
   ev.set("run", run).set("u", Value::from(pb.sourcePosition())).set("v", Value::from(pb.sinkPosition()));
-  ev.set("s", Value::from(pb.sourceSupply())).set("d", Value::from(pb.sinkDemand()));
+  ev.set("s", Value::from(inUnits(pb.sourceSupply()))).set("d", Value::from(inUnits(pb.sinkDemand()))).set("qscale", qs);
   int ns = pb.nbSinks(), nr = pb.nbSources();
   try {
     Transportation1d::Solution sol = pb.solve();
     std::vector<std::vector<long long>> alloc(ns, std::vector<long long>(nr, 0));
     for (auto [i, j, a] : sol) alloc[j][i] += a;
+    for (auto &row : alloc) row = inUnits(row);
     ev.set("alloc", mat(alloc));
     {
       std::vector<std::vector<long long>> cost(ns, std::vector<long long>(nr));
       for (int j = 0; j < ns; ++j)
         for (int i = 0; i < nr; ++i) cost[j][i] = pb.cost(i, j);
-      std::vector<long long> pot = potentials(pb.sinkDemand(), cost, alloc), ph, pl;
+      std::vector<long long> dUnits = pb.sinkDemand();
+      for (auto &x : dUnits) x /= U;
+      std::vector<long long> pot = potentials(dUnits, cost, alloc), ph, pl;
       for (long long v : pot) {
         long long hi = v >= 0 ? v / 1048576 : -((-v + 1048575) / 1048576);
         ph.push_back(hi);
@@ -408,6 +427,7 @@ static void runT1d(int run, const Value &in) {
   } catch (std::exception &ex) {
     ev.set("alloc", Value::array()).set("poth", Value::array()).set("potl", Value::array()).set("assign", Value::array()).set("fate", std::string("throw: ") + ex.what());
   }
+  ev.set("units", units);
   vt::emit(ev);
 }
 
